@@ -33,12 +33,13 @@ def reset_globals():
     data.update({i: '' for i in range(9)})
 
 
-def set_identity(objects):
-    """Install an identity (dict id -> str/bytes) into the shared identity dict."""
+def set_identity(objects, order=None):
+    """Install an identity (dict id -> str/bytes) into the shared identity dict, which is first put back into its
+    import-time state (ids 0..8 empty); the objects are then configured one by one in the given order (default ascending)."""
     data = ModbusDeviceIdentification._ModbusDeviceIdentification__data
     data.clear()
     data.update({i: '' for i in range(9)})
-    for k in sorted(objects):
+    for k in (order if order is not None else sorted(objects)):
         data[k] = objects[k]
 
 
